@@ -256,7 +256,15 @@ impl<'a> Linkage<'a> {
         F: Fn(Combinations<HpoSet<'_>>) -> Vec<f32>,
     {
         fn mean(v1: Option<&f32>, v2: Option<&f32>) -> f32 {
-            (v1.expect("v1 must be `Some`") + v2.expect("v2 must be `Some`")) / 2.0
+            let v1 = *v1.expect("v1 must be `Some`");
+            let v2 = *v2.expect("v2 must be `Some`");
+            let sum = v1 + v2;
+            if sum.is_infinite() && v1.is_finite() && v2.is_finite() {
+                // the sum of two large distances overflows, their mean does not
+                v1 / 2.0 + v2 / 2.0
+            } else {
+                sum / 2.0
+            }
         }
 
         let mut linkage = Self::new(sets, &distance);
